@@ -75,13 +75,16 @@ def balanced(lay, tier, p):
                 for seed in seeds:
                     for epoch in ((0, 1) if shuffle else (0,)):
                         streams, lens = [], []
+                        second = []
                         for r in range(W):
                             s = ClassBalancedSampler(ds, shuffle=shuffle, samples_per_class=spc, seed=seed, rank=r, world_size=W)
                             s.set_epoch(epoch)
                             streams.append(list(s))
                             lens.append(len(s))
+                            second.append(list(s))
                         p.evaluations += 1
                         check_balanced_streams(lay, spc, W, shuffle, streams, lens, p, dict(case, seed=seed, epoch=epoch))
+                        check_balanced_streams(lay, spc, W, shuffle, second, lens, p, dict(case, seed=seed, epoch=epoch, second_iteration=True))
                 # every permutation answer when all pools are small
                 if shuffle and max(lay.count(c) for c in set(lay)) <= 3 and (spc or 0) <= 2 and len(lay) <= 4:
                     def body(ch):
@@ -152,13 +155,16 @@ def semi(lay, tier, p):
                 for seed in (0, 1, 2):
                     for epoch in (0, 1):
                         streams, lens = [], []
+                        second = []
                         for r in range(W):
                             s = SemiSampler(ds, num_labeled=nl, num_unlabeled=nu, rank=r, world_size=W, seed=seed, length_mode=mode)
                             s.set_epoch(epoch)
                             streams.append(list(s))
                             lens.append(len(s))
+                            second.append(list(s))
                         p.evaluations += 1
                         check_semi(lay, nl, nu, mode, W, streams, lens, p, dict(case, seed=seed, epoch=epoch), True)
+                        check_semi(lay, nl, nu, mode, W, second, lens, p, dict(case, seed=seed, epoch=epoch, second_iteration=True), True)
                 if len(lay) <= 4 and W == 1:
                     def body(ch):
                         s = SemiSampler(ds, num_labeled=nl, num_unlabeled=nu, rank=0, world_size=1, seed=0, length_mode=mode)
@@ -207,6 +213,8 @@ def weighted(n, tier, p):
                             s = WeightedSampler(ds, weights=torch.tensor(w), size=size, seed=seed, rank=r, world_size=W)
                             s.set_epoch(epoch)
                             if choices is None:
+                                if (seed + epoch + r) % 2:
+                                    list(s)  # some ranks already iterated once (e.g. a sanity pass): must not matter
                                 streams.append(list(s))
                             else:
                                 streams.append(with_proxy("kappadata.samplers.weighted_sampler", Chooser(tuple(choices)), lambda: list(s)))
